@@ -253,17 +253,22 @@ impl<A: TimerApi> World for TimerWorld<A> {
             }
             OP_NEW_DELAY => {
                 self.next_id += 1;
-                // delays in ms; sometimes absurdly large ones (saturation)
-                let d = match rng.below(16) {
-                    0 => u64::MAX,     // Duration::MAX
-                    1 => u64::MAX - 1, // close to u64::MAX milliseconds
-                    2 => 0,
+                // b selects the unit: 0 = c milliseconds, 1 = Duration::MAX, 2 = c seconds,
+                // 3 = u64::MAX milliseconds + c milliseconds, 4 = c nanoseconds
+                let (unit, d) = match rng.below(20) {
+                    0 => (1u32, 0u64),
+                    1 => (0, u64::MAX - 1),
+                    2 => (0, 0),
+                    3 => (2, 1u64 << rng.range(54, 62)), // more than u64::MAX milliseconds
+                    4 => (3, rng.below(2000)),           // just above u64::MAX milliseconds
+                    5 => (2, rng.below(50)),
+                    6 => (4, rng.below(3_000_000)),      // sub-millisecond remainders
                     _ => {
                         let tgt = *rng.pick(&self.alphabet);
-                        tgt.saturating_sub(self.now).min(1_000_000)
+                        (0, tgt.saturating_sub(self.now).min(1_000_000))
                     }
                 };
-                Op::new(OP_NEW_DELAY, (self.next_id - 1) as u32, 0, d)
+                Op::new(OP_NEW_DELAY, (self.next_id - 1) as u32, unit, d)
             }
             OP_POLL => {
                 let woken: Vec<usize> = pollable.iter().copied().filter(|id| env.slots[*id].uw() || env.slots[*id].st == St::Fresh).collect();
@@ -315,10 +320,18 @@ impl<A: TimerApi> World for TimerWorld<A> {
             OP_NEW_DELAY => {
                 if self.prim_alive && !self.used[id] {
                     let t = self.prim_ref.unwrap();
-                    let (dur, ms) = match op.c {
-                        u64::MAX => (Duration::MAX, u64::MAX),
-                        m => (Duration::from_millis(m), m),
+                    let dur = match op.b {
+                        1 => Duration::MAX,
+                        2 => Duration::from_secs(op.c),
+                        3 => Duration::from_millis(u64::MAX).saturating_add(Duration::from_millis(op.c)),
+                        4 => Duration::from_nanos(op.c),
+                        _ => Duration::from_millis(op.c),
                     };
+                    // "delay(d) means deadline(now+d), saturating", at the timer's millisecond precision
+                    let ms = dur.as_millis().min(u64::MAX as u128) as u64;
+                    if dur.as_millis() > u64::MAX as u128 {
+                        env.fault("delay_longer_than_u64_ms");
+                    }
                     if let Some(f) = env.call("delay", || t.delay(dur)) {
                         let dl = self.now.saturating_add(ms);
                         if dl == u64::MAX {
